@@ -62,6 +62,14 @@ def cases(tier, seed):
             src['trace_sample_count'] = ['stale', 'vary'][(i // 7) % 2]
         out.append({'id': 'rt:%d:%s:fmt%d' % (i, geom, fmt), 'src': src, 'rate': rate, 'bs': list(bs), 'detection': rng.choice(['thorough', 'exhaustive', 'heuristic']),
                     'route': 'cli' if i % 5 == 0 else 'api', 'cost': 2})
+    # directed: unevenly spaced line numbers (inlines 10, 12, 15 and crosslines 20, 23, 24, 26 are what is left of a denser numbering): the
+    # grid increment is the one that reaches every number present, not the smallest gap
+    for j, (fmt, det) in enumerate([(5, 'thorough'), (1, 'heuristic')]):
+        present_il, present_xl = [0, 2, 5], [0, 3, 4, 6]
+        holes = [i_ * 7 + x_ for i_ in range(6) for x_ in range(7) if i_ not in present_il or x_ not in present_xl] + [2 * 7 + 3]
+        src = conv.src_desc(rng, 'irregular', (6, 7, 9), hdr={'seed': 5 + j, 'nfields': 2, 'inside': True}, fmt=fmt, valkind='smooth', holes=sorted(holes),
+                            il=[10, 1], xl=[20, 1], missing_line=True)
+        out.append({'id': 'rt:%d:irregular-uneven:fmt%d' % (9000 + j, fmt), 'src': src, 'rate': 8, 'bs': [4, 4, -1], 'detection': det, 'route': 'api', 'cost': 2})
     return out
 
 
